@@ -165,6 +165,7 @@ class Normalizer:
         self._poly = {}
         self._atomgen = {}
         self.reductions = {}  # gen idx -> (q, Poly) meaning g^q = Poly
+        self._no_reduce = False
 
     # ------------------------------------------------------------------ gens
     def var_gen(self, name):
@@ -320,7 +321,7 @@ class Normalizer:
                 p = P[m.args[0].id] - P[m.args[1].id]
             elif op == "*":
                 p = P[m.args[0].id] * P[m.args[1].id]
-                if self.reductions:
+                if self.reductions and not self._no_reduce:
                     p = self.reduce(p)
             elif op == "/":
                 b = P[m.args[1].id]
@@ -380,6 +381,42 @@ class Normalizer:
                     acc = acc + term * bp
                 p = acc
         return p
+
+    def poly_unreduced(self, root: Node, max_terms=2_000_000) -> Poly:
+        """expansion with atoms as free generators (no g^q -> base rewriting)"""
+        saved_poly = self._poly
+        self._poly = self.__dict__.setdefault("_poly_unred", {})
+        self._no_reduce = True
+        try:
+            return self.poly(root, max_terms)
+        finally:
+            self._poly = saved_poly
+            self._no_reduce = False
+
+    def reduce_with_certificate(self, p: Poly):
+        """-> (remainder, {g: Q_g}) with  p == remainder + sum_g Q_g * (g^q_g - base_g)"""
+        red = self.reductions
+        cert = {}
+        changed = True
+        while changed:
+            changed = False
+            for g, (q, base) in red.items():
+                sh = BITS * g
+                hit = [m for m in p.t if ((m >> sh) & MASK) >= q]
+                if not hit:
+                    continue
+                changed = True
+                acc = Poly({m: c for m, c in p.t.items() if ((m >> sh) & MASK) < q})
+                Q = cert.get(g, Poly())
+                for m in hit:
+                    # c * rest * g^e  =  c*rest*g^(e-q) * (g^q - base) + c*rest*g^(e-q)*base
+                    e = (m >> sh) & MASK
+                    lower = Poly({m - (q << sh): p.t[m]})
+                    Q = Q + lower
+                    acc = acc + lower * base
+                cert[g] = Q
+                p = acc
+        return p, cert
 
     # convenience -----------------------------------------------------------
     def residual(self, n: Node):
